@@ -124,6 +124,10 @@ func (rl *ruleLoader) objectEndAfterRuleName(lex lexeme.LexEvent) {
 }
 
 func (rl *ruleLoader) ruleValueBegin(lex lexeme.LexEvent) {
+	if lex.Type() == lexeme.NewLine {
+		// a line break before or after the colon of a rule in a /* */ annotation
+		return
+	}
 	if lex.Type() != lexeme.ObjectValueBegin {
 		panic(errs.ErrLoader.F())
 	}
